@@ -99,6 +99,24 @@ Theorem C08_float_jeffreys_model_limit :
               /\ metric_rnd rnd ir_jeffreys [5] [10] <> metric_rnd rnd ir_jeffreys [10] [5].
 Proof. exact jeffreys_model_limit. Qed.
 
+(* negative control: associativity is never used.  `sum((x + 1) + y)` is symmetric over the reals, is
+   rejected, and an admissible odd rounding gives different values *)
+Theorem C08_float_assoc_control :
+  swap_sym
+    {| m_name := "assoc_control"; m_avoid_zero := false; m_njit := true;
+       m_params := [("x", None); ("y", None)];
+       m_body := SSum (VBin BAdd (VBin BAdd VX (VConstS (SConstQ (1 # 1)))) VY) |} = false
+  /\ exists rnd, rounding rnd /\ rnd_odd rnd
+       /\ metric_rnd rnd
+            {| m_name := "assoc_control"; m_avoid_zero := false; m_njit := true;
+               m_params := [("x", None); ("y", None)];
+               m_body := SSum (VBin BAdd (VBin BAdd VX (VConstS (SConstQ (1 # 1)))) VY) |} [/ 2] [5]
+          <> metric_rnd rnd
+            {| m_name := "assoc_control"; m_avoid_zero := false; m_njit := true;
+               m_params := [("x", None); ("y", None)];
+               m_body := SSum (VBin BAdd (VBin BAdd VX (VConstS (SConstQ (1 # 1)))) VY) |} [5] [/ 2].
+Proof. exact assoc_control. Qed.
+
 (* ---------------- B. exact zero self-distance ---------------- *)
 Theorem C08_float_zero_sound :
   forall (c : cls) (m : metric_ir),
